@@ -316,10 +316,91 @@ func (ex *Exec) fire(tr transition) {
 	}
 }
 
+type sleepEntry struct {
+	sig     string
+	threads [2]int
+	chans   []int
+	r, w    map[int]bool
+	wild    bool // its continuation forked on data: never treated as independent
+}
+
+func (tr *transition) threadIDs() [2]int {
+	ids := [2]int{tr.t.id, 0}
+	if tr.t2 != nil {
+		ids[1] = tr.t2.id
+	}
+	return ids
+}
+
+func (tr *transition) chanIDs() []int {
+	var out []int
+	add := func(t *thread, idx int) {
+		if t == nil || t.pending == nil {
+			return
+		}
+		ch, _, _ := opCase(t.pending, idx)
+		if ch != nil {
+			out = append(out, ch.ID)
+		}
+	}
+	if tr.kind == 2 {
+		// a select default fires because none of its cases is ready: it depends on all their channels
+		for i := range tr.t.pending.cases {
+			add(tr.t, i)
+		}
+		return out
+	}
+	add(tr.t, tr.caseIdx)
+	if tr.t2 != nil {
+		add(tr.t2, tr.case2)
+	}
+	return out
+}
+
+func independent(a, b *sleepEntry) bool {
+	if a.wild || b.wild {
+		return false
+	}
+	for _, x := range a.threads {
+		for _, y := range b.threads {
+			if x != 0 && x == y {
+				return false
+			}
+		}
+	}
+	for _, x := range a.chans {
+		for _, y := range b.chans {
+			if x == y {
+				return false
+			}
+		}
+	}
+	for o := range a.w {
+		if b.w[o] || b.r[o] {
+			return false
+		}
+	}
+	for o := range b.w {
+		if a.r[o] {
+			return false
+		}
+	}
+	return true
+}
+
 // RunThreads runs the scheduler until no transition is enabled (or the step
 // bound is hit). It returns the number of threads that have not finished.
+//
+// Interleavings are explored with sleep sets: when a transition t is fired at
+// a scheduling point, the sibling transitions already explored there stay
+// "asleep" in t's subtree for as long as only transitions independent of them
+// fire (disjoint threads, disjoint channels, and no write/read or write/write
+// overlap of the heap objects their continuations touched; a continuation that
+// forks on data is never independent). A path on which every enabled
+// transition is asleep is redundant and dropped.
 func (ex *Exec) RunThreads(maxSteps int) int {
 	steps := 0
+	por := !ex.Opt.NoPOR
 	for ex.crashed == nil {
 		trs := ex.enabledTransitions()
 		if len(trs) == 0 {
@@ -329,11 +410,88 @@ func (ex *Exec) RunThreads(maxSteps int) int {
 			panic(&pathAbort{Reason: "UNWIND-EXCEEDED: scheduler step bound"})
 		}
 		steps++
-		k := 0
-		if len(trs) > 1 {
-			k = ex.Choose("sched", len(trs))
+		asleep := func(sig string) bool {
+			for i := range ex.sleep {
+				if ex.sleep[i].sig == sig {
+					return true
+				}
+			}
+			return false
 		}
-		ex.fire(trs[k])
+		idx := len(ex.decisionsX)
+		k := -1
+		frontier := false
+		if d, ok := ex.nextDecision(); ok {
+			if d.kind != dSched || int(d.val) >= len(trs) {
+				ex.internal("replay divergence at scheduling point")
+			}
+			k = int(d.val)
+			frontier = idx == len(ex.prefix)-1
+		} else {
+			frontier = true
+			for i := range trs {
+				if !por || !asleep(trs[i].desc) {
+					k = i
+					break
+				}
+			}
+			if k < 0 {
+				ex.sleepBlocked++
+				panic(&pathAbort{Reason: "redundant interleaving (sleep set)"})
+			}
+		}
+		ex.logDecision(decision{dSched, int64(k)})
+		tr := trs[k]
+		ent := sleepEntry{sig: tr.desc, threads: tr.threadIDs(), chans: tr.chanIDs()}
+		ndec := len(ex.decisionsX)
+		ex.fpOn, ex.fpMark, ex.fpR, ex.fpW = true, ex.nobj, map[int]bool{}, map[int]bool{}
+		ex.fire(tr)
+		ex.fpOn = false
+		ent.r, ent.w = ex.fpR, ex.fpW
+		if len(ex.decisionsX) != ndec {
+			ent.wild = true
+		}
+		pre := ex.preAt[idx]
+		if frontier && ex.exp != nil {
+			// hand the next awake sibling to another worker, telling it what has been explored here
+			next := -1
+			for i := k + 1; i < len(trs); i++ {
+				if !por || !asleep(trs[i].desc) {
+					next = i
+					break
+				}
+			}
+			if next >= 0 {
+				np := make(map[int][]sleepEntry, len(ex.preAt)+1)
+				for a, b := range ex.preAt {
+					if a < idx {
+						np[a] = b
+					}
+				}
+				lst := make([]sleepEntry, 0, len(pre)+1)
+				lst = append(lst, pre...)
+				lst = append(lst, ent)
+				np[idx] = lst
+				p := make([]decision, idx+1)
+				copy(p, ex.decisionsX[:idx])
+				p[idx] = decision{dSched, int64(next)}
+				ex.exp.push(&job{prefix: p, pre: np})
+			}
+		}
+		if por {
+			var ns []sleepEntry
+			for i := range ex.sleep {
+				if independent(&ex.sleep[i], &ent) {
+					ns = append(ns, ex.sleep[i])
+				}
+			}
+			for i := range pre {
+				if independent(&pre[i], &ent) {
+					ns = append(ns, pre[i])
+				}
+			}
+			ex.sleep = ns
+		}
 	}
 	if steps > ex.maxSched {
 		ex.maxSched = steps
